@@ -71,20 +71,34 @@ func glookup(args []string) error {
 		return fmt.Errorf("dump has %d states, TLC reported %d", n, *expect)
 	}
 	rep.Cases = int64(n)
+	seenKeys := map[string]bool{}
+	for _, st := range states {
+		if st["q"].Field("t").S == "elements" {
+			for _, m := range st["q"].Field("o").E[1].E {
+				seenKeys[string(m.E[0].Bytes())] = true
+			}
+		}
+	}
+	for k := range seenKeys {
+		allKeys = append(allKeys, k)
+	}
 	run.ParallelFor(len(states), func(w, i int) {
 		defer func() {
 			if r := recover(); r != nil {
 				rep.Add(run.Mismatch{Property: *prop, Sig: fmt.Sprintf("panic:%d", i), Want: "no panic", Got: fmt.Sprint(r)})
 			}
 		}()
-		lookupCase(rep, *prop, states[i])
+		lookupCase(rep, *prop, states[i], w)
 	})
 	rep.Evaluations = rep.Counters["evaluations"]
 	rep.Nontrivial = rep.Counters["nontrivial"]
 	return rep.Write(*out)
 }
 
-func lookupCase(rep *run.Report, prop string, st tla.State) {
+var allKeys []string
+var reusedElements [run.MaxWorkers]*simdjson.Elements
+
+func lookupCase(rep *run.Report, prop string, st tla.State, w int) {
 	q, o := st["q"], st["out"]
 	typ := q.Field("t").S
 	cfg := run.Cfg{AVX512: run.HasAVX512, Copy: true}
@@ -243,10 +257,34 @@ func lookupCase(rep *run.Report, prop string, st tla.State) {
 			return
 		}
 		unique := o.E[2].B
-		el, err := obj.Parse(nil)
+		// a destination that already served another object (and a fresh one every third case)
+		el, err := obj.Parse(reusedElements[w])
 		if err != nil {
 			bad(text, "Object.Parse", "elements", err.Error())
 			return
+		}
+		if st["q"].Field("o").E[1].Len()%3 != 2 {
+			reusedElements[w] = el
+		} else {
+			reusedElements[w] = nil
+		}
+		have := map[string]bool{}
+		for _, m := range ov.Obj {
+			have[string(m.Key)] = true
+		}
+		for _, k := range allKeys {
+			if !have[k] {
+				func() {
+					defer func() {
+						if r := recover(); r != nil {
+							bad(text, "Elements.Lookup("+k+")", "nil for an absent key", fmt.Sprint("PANIC: ", r))
+						}
+					}()
+					if e := el.Lookup(k); e != nil {
+						bad(text, "Elements.Lookup("+k+") after Parse into a reused destination", "nil for an absent key", "element "+e.Name)
+					}
+				}()
+			}
 		}
 		if len(el.Elements) != len(ov.Obj) {
 			bad(text, "Object.Parse", fmt.Sprintf("%d elements", len(ov.Obj)), fmt.Sprintf("%d", len(el.Elements)))
